@@ -59,7 +59,14 @@ class C17(fw.Prop):
             def impl():
                 from dlms_cosem.protocol.wrappers import WrapperHeader
                 h = WrapperHeader.from_bytes(b)
-                return f"ok {h.version} {h.source_wport} {h.destination_wport} {h.length}"
+                out = f"ok {h.version} {h.source_wport} {h.destination_wport} {h.length}"
+                # the caller turns the header it got into the one of its answer (ports swapped, another length); the same eight
+                # bytes decoded again are still what they say
+                h.source_wport, h.destination_wport, h.length = h.destination_wport ^ 0x55, h.source_wport ^ 0xAA, (h.length + 4) % 65536
+                fw.scribble(h)
+                h2 = WrapperHeader.from_bytes(b)
+                out2 = f"ok {h2.version} {h2.source_wport} {h2.destination_wport} {h2.length}"
+                return out if out2 == out else out + " !second-decode-gives:" + out2
             return fw.Case(f"wrp unhdr {fw.hx(b)}", impl, "prop", d, tags=("unhdr",))
         if op == "wrap":
             c, s, apdu = d["c"], d["s"], bytes.fromhex(d["apdu"])
@@ -70,6 +77,15 @@ class C17(fw.Prop):
                 # send() = sendall(wrap(apdu)) then recv(): give the peer an empty answer message
                 sock = ScriptedSocket(bytes([0, 1, 0, 1, 0, 1, 0, 0]), [])
                 t.tcp_socket = sock
+                if d.get("before"):
+                    # the transport has been used with other addresses before (one connection, first the public client, then
+                    # the management client): what is sent carries the addresses the transport has now
+                    oc, os_ = d["before"]
+                    t.client_logical_address, t.server_logical_address = oc, os_
+                    t.send(b"\xc0\x01\xc1\x00")
+                    sock.stream = bytes([0, 1, 0, 1, 0, 1, 0, 0])
+                    sock.sent = b""
+                    t.client_logical_address, t.server_logical_address = c, s
                 t.send(apdu)
                 if sock.sent != t.wrap(apdu):
                     return "ok sent-differs-from-wrap"
@@ -82,7 +98,20 @@ class C17(fw.Prop):
                 from dlms_cosem.protocol.wrappers import WrapperProtocolDataUnit
                 p = WrapperProtocolDataUnit.from_bytes(b)
                 h = p.wrapper_header
-                return f"ok {h.version} {h.source_wport} {h.destination_wport} {h.length} {fw.hx(p.data)}"
+                out = f"ok {h.version} {h.source_wport} {h.destination_wport} {h.length} {fw.hx(p.data)}"
+                h.source_wport, h.destination_wport, h.length = h.destination_wport ^ 0x55, h.source_wport ^ 0xAA, (h.length + 4) % 65536
+                fw.scribble(p)
+                p2 = WrapperProtocolDataUnit.from_bytes(b)
+                h2 = p2.wrapper_header
+                out2 = f"ok {h2.version} {h2.source_wport} {h2.destination_wport} {h2.length} {fw.hx(p2.data)}"
+                if d.get("udp"):
+                    from dlms_cosem.protocol.wrappers import DlmsUdpMessage
+                    u = DlmsUdpMessage.from_bytes(b)
+                    hu = u.wrapper_header
+                    out3 = f"ok {hu.version} {hu.source_wport} {hu.destination_wport} {hu.length} {fw.hx(u.data)}"
+                    if out3 != out:
+                        return out + " !as-udp-message:" + out3
+                return out if out2 == out else out + " !second-decode-gives:" + out2
             return fw.Case(f"wrp unpdu {fw.hx(b)}", impl, "prop", d, tags=("unpdu",))
         if op == "recv":
             stream = bytes.fromhex(d["stream"])
@@ -140,6 +169,19 @@ class C17(fw.Prop):
                 yield mk({"op": "unpdu", "b": m[:-1].hex()})
                 yield mk({"op": "unpdu", "b": (m + b"\x00").hex()})
         yield mk({"op": "wrap", "c": 65536, "s": 1, "apdu": "00"})
+        for _ in range(12 if deep else 4):
+            yield mk({"op": "wrap", "c": rng.choice(B), "s": rng.choice(B), "apdu": bytes(rng.getrandbits(8) for _ in range(rng.randint(0, 40))).hex(),
+                      "before": [rng.choice([16, 1, 0x10]), rng.choice([1, 2, 0x7FFF])]})
+        # every distance between the length field and the payload length from -16 to +16 (and the header's own 8 bytes counted or not)
+        for L in (0, 1, 9, 40):
+            apdu = bytes(rng.getrandbits(8) for _ in range(L))
+            for delta in range(-16, 17):
+                if L + delta < 0 or delta == 0:
+                    continue
+                m = self.msg(rng.choice(B), rng.choice(B), apdu)
+                bad = m[:6] + (L + delta).to_bytes(2, "big") + m[8:]
+                yield mk({"op": "unpdu", "b": bad.hex(), "udp": True})
+            yield mk({"op": "unpdu", "b": self.msg(1, 16, apdu).hex(), "udp": True})
         # the length check does not depend on the other header fields (version, ports)
         for version in (0, 1, 2, 257, 65535):
             for L in (0, 1, 13):
